@@ -46,7 +46,7 @@ def effect_text(ef):
     if k == "store":
         return "%s = %s" % (t, summ.arith_text(e))
     if k == "expr":
-        return "expr " + t
+        return "expr " + src(summ.simplify(e))
     if k in ("let", "carry", "final"):
         return "%s %s := %s" % (k, t, summ.arith_text(e) if isinstance(e, ast.AST) else e)
     if k == "call":
@@ -66,7 +66,7 @@ def full_outcome(p):
     if k == "return":
         parts.append("return " + summ.arith_text(e))
     elif k == "raise":
-        parts.append("raise " + (src(e) if e is not None else ""))
+        parts.append("raise " + (src(summ.simplify(e)) if e is not None else ""))
     elif k == "jump":
         parts.append("jump " + src(e))
     else:
@@ -97,18 +97,16 @@ def _loads(nodes):
     return out
 
 
-def _live_outside(region, whole):
-    """Names read somewhere in the function outside `region` (a temporary used only inside the region is dead after it)."""
-    inside = _loads(region)
-    total = _loads([whole])
-    return set(k for k, v in total.items() if v > inside.get(k, 0))
+DEBUG = []
 
 
 def region_equivalent(ra, rb, fa=None, fb=None):
-    """True / False / None (not computable) for two statement lists read as state transformers."""
+    """True / False / None (not computable) for two statement lists read as state transformers.
+    fa / fb: the statements that can run after the region in each function (None: unknown, every assigned name counts);
+    a name assigned in the region but never read afterwards is dead and its final value is not compared."""
     names = _assigned_names(ra) | _assigned_names(rb)
     if fa is not None and fb is not None:
-        names &= (_live_outside(ra, fa) | _live_outside(rb, fb))
+        names &= (set(_loads(fa)) | set(_loads(fb)))
     names = sorted(names)
     try:
         pa = summ.Summariser(ra, "<current>", loops="body", safe=True, final_names=names, max_paths=MAX_REGION_PATHS).run()
@@ -121,56 +119,61 @@ def region_equivalent(ra, rb, fa=None, fb=None):
         return None
     ta = summ.table(pa, full_outcome)
     tb = summ.table(pb, full_outcome)
-    ok, _ = summ.compare(ta, tb)
+    ok, det = summ.compare(ta, tb)
+    if DEBUG is not None and len(DEBUG) < 50:
+        DEBUG.append((len(ra), len(rb), len(pa), len(pb), ok, det[:1500]))
     return ok
 
 
-def blocks_equivalent(sa_, sb_, depth=0, fa=None, fb=None):
-    """Statement lists (already alpha-renamed consistently)."""
+def blocks_equivalent(sa_, sb_, depth=0, ta=(), tb=()):
+    """Statement lists; ta / tb: what can run after them in their functions."""
     sa_, sb_ = list(sa_), list(sb_)
+    ta, tb = list(ta), list(tb)
     # identical statements front and back need no proof
     while sa_ and sb_ and _dump(sa_[0]) == _dump(sb_[0]):
         sa_.pop(0)
         sb_.pop(0)
-    # a common suffix may only be cut when the differing middle cannot jump over it differently: it is compared as
-    # a state transformer (final values + result), so cutting is sound
     full_a, full_b = list(sa_), list(sb_)
+    cut_a, cut_b = [], []
     while sa_ and sb_ and _dump(sa_[-1]) == _dump(sb_[-1]):
-        sa_.pop()
-        sb_.pop()
+        cut_a.insert(0, sa_.pop())
+        cut_b.insert(0, sb_.pop())
     if not sa_ and not sb_:
         return True
-    r = region_equivalent(sa_, sb_, fa, fb)
+    r = region_equivalent(sa_, sb_, cut_a + ta, cut_b + tb)
     if r:
         return True
-    if len(full_a) != len(sa_):
+    if cut_a:
         # one side may leave early where the other runs on into the common tail: compare with the tail included
-        r2 = region_equivalent(full_a, full_b, fa, fb)
+        r2 = region_equivalent(full_a, full_b, ta, tb)
         if r2:
             return True
         if r is not None and r2 is not None:
             return False
     elif r is not None:
         return r
+    ta2, tb2 = cut_a + ta, cut_b + tb
     # too large: same compound statement with the same header -> compare the parts
     if len(sa_) == 1 and len(sb_) == 1 and type(sa_[0]) is type(sb_[0]) and depth < 12:
         a, b = sa_[0], sb_[0]
         if isinstance(a, ast.If) and _dump(a.test) == _dump(b.test):
-            return blocks_equivalent(a.body, b.body, depth + 1, fa, fb) and blocks_equivalent(a.orelse, b.orelse, depth + 1, fa, fb)
+            return blocks_equivalent(a.body, b.body, depth + 1, ta2, tb2) and blocks_equivalent(a.orelse, b.orelse, depth + 1, ta2, tb2)
         if isinstance(a, (ast.For, ast.AsyncFor)) and _dump(a.target) == _dump(b.target) and _dump(a.iter) == _dump(b.iter):
-            return blocks_equivalent(a.body, b.body, depth + 1, fa, fb) and blocks_equivalent(a.orelse, b.orelse, depth + 1, fa, fb)
+            return blocks_equivalent(a.body, b.body, depth + 1, [a] + ta2, [b] + tb2) and blocks_equivalent(a.orelse, b.orelse, depth + 1, ta2, tb2)
         if isinstance(a, ast.While) and _dump(a.test) == _dump(b.test):
-            return blocks_equivalent(a.body, b.body, depth + 1, fa, fb) and blocks_equivalent(a.orelse, b.orelse, depth + 1, fa, fb)
+            return blocks_equivalent(a.body, b.body, depth + 1, [a] + ta2, [b] + tb2) and blocks_equivalent(a.orelse, b.orelse, depth + 1, ta2, tb2)
         if isinstance(a, (ast.With, ast.AsyncWith)) and [_dump(i) for i in a.items] == [_dump(i) for i in b.items]:
-            return blocks_equivalent(a.body, b.body, depth + 1, fa, fb)
+            return blocks_equivalent(a.body, b.body, depth + 1, ta2, tb2)
         if isinstance(a, ast.Try) and len(a.handlers) == len(b.handlers) and \
                 all(_dump(x.type) == _dump(y.type) if (x.type is not None and y.type is not None) else x.type is y.type for x, y in zip(a.handlers, b.handlers)) and \
                 all(x.name == y.name for x, y in zip(a.handlers, b.handlers)):
-            return blocks_equivalent(a.body, b.body, depth + 1, fa, fb) and blocks_equivalent(a.orelse, b.orelse, depth + 1, fa, fb) and \
-                blocks_equivalent(a.finalbody, b.finalbody, depth + 1, fa, fb) and all(blocks_equivalent(x.body, y.body, depth + 1, fa, fb) for x, y in zip(a.handlers, b.handlers))
-    # several statements: try to pair them one to one when the counts agree
+            # anything in the statement may run after a part of it (handlers, finally)
+            return blocks_equivalent(a.body, b.body, depth + 1, [a] + ta2, [b] + tb2) and blocks_equivalent(a.orelse, b.orelse, depth + 1, [a] + ta2, [b] + tb2) and \
+                blocks_equivalent(a.finalbody, b.finalbody, depth + 1, ta2, tb2) and \
+                all(blocks_equivalent(x.body, y.body, depth + 1, [a] + ta2, [b] + tb2) for x, y in zip(a.handlers, b.handlers))
+    # several statements: pair them one to one when the counts agree
     if len(sa_) == len(sb_) and len(sa_) > 1 and depth < 12:
-        return all(blocks_equivalent([x], [y], depth + 1, fa, fb) for x, y in zip(sa_, sb_))
+        return all(blocks_equivalent([x], [y], depth + 1, sa_[i + 1:] + ta2, sb_[i + 1:] + tb2) for i, (x, y) in enumerate(zip(sa_, sb_)))
     return False
 
 
@@ -186,11 +189,11 @@ def functions_equivalent(fa, fb):
         return True, "identical"
     try:
         # the names as written first (most edits keep them), then with locals renamed by first binding
-        if blocks_equivalent(_strip_doc(fa.body), _strip_doc(fb.body), 0, fa, fb):
+        if blocks_equivalent(_strip_doc(fa.body), _strip_doc(fb.body), 0, [], []):
             return True, "guarded normal forms agree"
         A = summ.alpha_rename(fa)
         B = summ.alpha_rename(fb)
-        ok = blocks_equivalent(_strip_doc(A.body), _strip_doc(B.body), 0, A, B)
+        ok = blocks_equivalent(_strip_doc(A.body), _strip_doc(B.body), 0, [], [])
     except RecursionError:
         return False, "too deep"
     return ok, "guarded normal forms agree (locals renamed)" if ok else "not proven equivalent"
